@@ -100,18 +100,20 @@ Theorem C14_pwg_meridian_correct : forall a b p,
 Proof. exact c14_pwg_meridian_correct. Qed.
 Print Assumptions C14_pwg_meridian_correct.
 
-(* --- ... but not in the pole branch: the faithful model violates the property there (defects of /repo,
-       reproduced on the real code by the harness) --- *)
+(* --- ... but not in the pole branch: with a pole strictly inside the arc the faithful model still violates the
+       property (open defect of /repo, reproduced on the real code by the harness) --- *)
 Theorem C14_pwg_through_pole_refuted :
   exists a b p, c14_cross a b <> (0, 0, 0) /\ c14_on_arc a b (0, 0, 1) = true /\
                 c14_on_arc a b p = false /\ c14_pwg a b p = Some true.
 Proof. exact c14_pwg_through_pole_refuted. Qed.
 Print Assumptions C14_pwg_through_pole_refuted.
 
-Theorem C14_pwg_equator_endpoint_refuted :
-  exists a b p, c14_cross a b <> (0, 0, 0) /\ c14_on_arc a b p = true /\ c14_pwg a b p = Some false.
-Proof. exact c14_pwg_equator_endpoint_refuted. Qed.
-Print Assumptions C14_pwg_equator_endpoint_refuted.
+(* fixed in /repo (b3cc87d4): _decide_pole_latitude picks the same pole for either order of the endpoints *)
+Theorem C14_decide_pole_order_independent : forall l1 l2,
+  c14_lat_le (c14_lat_abs l1) (c14_lat_abs l2) = false ->
+  c14_decide_pole l1 l2 = c14_decide_pole l2 l1.
+Proof. exact c14_decide_pole_sym. Qed.
+Print Assumptions C14_decide_pole_order_independent.
 
 Theorem C14_pwg_swap_refuted :
   exists a b p, c14_cross a b <> (0, 0, 0) /\ c14_pwg a b p <> c14_pwg b a p.
